@@ -123,16 +123,17 @@ class JsonCacheHandler(BaseCacheHandler):
             with bz2.BZ2File(self._cache_path, 'r') as file:
                 json_cache_data = file.read().decode('utf-8')
                 cache_data = json.loads(json_cache_data)
+            # Load cache data into memory data cache
+            self.__update_memory_cache(cache_data)
         except KeyboardInterrupt:
             raise
-        # If file doesn't exist, JSON load errors occurs, or anything else bad
-        # happens, leave memory cache empty
+        # If file doesn't exist, JSON load errors occurs, loaded data has
+        # unexpected structure, or anything else bad happens, leave memory
+        # cache empty
         except:
             msg = 'error during reading cache'
             logger.error(msg)
-        # Load cache data into memory data cache, if everything went smooth
-        else:
-            self.__update_memory_cache(cache_data)
+            self.__clear_memory_cache()
 
     def update_cache(self, eve_objects, fingerprint):
         types, attrs, effects, buff_templates = eve_objects
@@ -159,13 +160,18 @@ class JsonCacheHandler(BaseCacheHandler):
             json_cache_data = json.dumps(cache_data)
             file.write(json_cache_data.encode('utf-8'))
 
-    def __update_memory_cache(self, cache_data):
-        """Replace existing memory cache data with passed data."""
-        # Clear storage to make sure objects composed from old data are gone
+    def __clear_memory_cache(self):
+        """Remove all data from memory cache."""
         self.__type_storage.clear()
         self.__attr_storage.clear()
         self.__effect_storage.clear()
         self.__buff_template_storage.clear()
+        self.__fingerprint = None
+
+    def __update_memory_cache(self, cache_data):
+        """Replace existing memory cache data with passed data."""
+        # Clear storage to make sure objects composed from old data are gone
+        self.__clear_memory_cache()
         # Process effects first, as item types rely on effects being available
         for effect_data in cache_data['effects']:
             effect = self.__effect_decompress(effect_data)
